@@ -734,8 +734,8 @@ def public_attributes(eng: Engine, ctx: Ctx, rid: str, model: DecoderModel):
     allowed_consts = {T.const.get("NSAT"), T.const.get("NSIG"), T.const.get("NCELL")}
     nset = 0
     for f in eng.repo.methods(mod, cls):
-        if f.name == "__setattr__":
-            continue
+        if f.name == "__setattr__" or eng.is_inlined_helper(f.qualname):
+            continue  # an inlined helper's stores are examined at its call sites, with its arguments bound
         se = eng.symeval(f.qualname)
         for e in se.effects:
             if e.kind == "call" and e.term[2] == ("builtin", "setattr") and len(e.term[3]) == 3 and e.term[3][0] == ("self",):
@@ -748,6 +748,8 @@ def public_attributes(eng: Engine, ctx: Ctx, rid: str, model: DecoderModel):
                 elif f.qualname == eng.single_field_routine:
                     # the field key itself, or the key extended by index suffixes (loop-built or key + join(...))
                     ok = nm == ("param", model.anam) or nm[0] == "loopout" or (nm[0] == "bin" and nm[1] == "+" and nm[2] == ("param", model.anam))
+                    if not ok and nm[0] == "call" and nm[2][0] == "attr" and nm[2][2] == "get" and nm[2][1][0] == "gval" and nm[3][:1] == (("param", model.anam),):
+                        nm = ("idx", nm[2][1], nm[3][0])  # TABLE.get(key) yields the table's values (or None, which setattr rejects)
                     if not ok and nm[0] == "idx" and nm[1][0] == "gval" and isinstance(nm[1][1].v, dict) and nm[2] == ("param", model.anam):
                         # table-driven bookkeeping: every name the table can yield must be admissible
                         vals = list(nm[1][1].v.values())
@@ -755,5 +757,8 @@ def public_attributes(eng: Engine, ctx: Ctx, rid: str, model: DecoderModel):
                         why = f"table lookup yielding {vals[:4]}"
                 ctx.check(ok, rid, f.qualname, norm(e.node)[:80], expected="field-derived name, MSM counter or private name", found=why, **eng.loc(f, e.node))
             if e.kind in ("store", "aug") and e.target and e.target[0] == "self" and f.name != "__init__":
-                ctx.check(e.target[1].startswith("_"), rid, f.qualname, norm(e.node)[:80], expected="private name", found=e.target[1], **eng.loc(f, e.node))
+                # `self.X = v` is setattr(self, "X", v): the same admissible names
+                x = e.target[1]
+                okx = x.startswith("_") or x in allowed_consts or (f.qualname == eng.stub_routine and x in T.fields)
+                ctx.check(okx, rid, f.qualname, norm(e.node)[:80], expected="private name, MSM counter (or the message-number field in the stub)", found=x, **eng.loc(f, e.node))
     ctx.instance("setattr sites", nset, 8)
